@@ -849,6 +849,7 @@ func (tr *Tr) ret(fr *frame, rs []Val, pos token.Pos) {
 		}
 		ob := tr.oblige(fr, "ensures", clauseLabel(e, k), e.Prop, fr.curReach, t, pos, e.Text)
 		ob.Canary = e.Canary
+		ob.MustWitness = e.Witness
 		if !e.Canary {
 			// a reachability cover per clause and return point is collected separately
 		}
